@@ -479,6 +479,48 @@ func (c *Ctx) c08Lookups() {
 			}
 		}
 	}
+	// ---- Get hands back the whole batch that was added under the id (its callers do their own slicing by reply number)
+	if get := c.MustFunc("outputstream.(*OutputStream).Get"); get != nil && get.Body() != nil {
+		gi := get.Info()
+		gg := c.Graph(get)
+		nOK := 0
+		for _, rv := range gg.Returns() {
+			rs := rv.Node.(*ast.ReturnStmt)
+			if len(rs.Results) != 2 {
+				continue
+			}
+			if id, ok := ast.Unparen(rs.Results[1]).(*ast.Ident); ok && id.Name == "true" || func() bool {
+				// `return x, ok` under ok == true
+				id, ok := ast.Unparen(rs.Results[1]).(*ast.Ident)
+				if !ok {
+					return false
+				}
+				for _, f := range gg.FactsAt(rv.ID) {
+					if fid, ok := ast.Unparen(f.Expr).(*ast.Ident); ok && f.Tag == nil && f.Val && astx.Obj(gi, fid) == astx.Obj(gi, id) {
+						return true
+					}
+				}
+				return false
+			}() {
+				nOK++
+				whole := false
+				if se, ok := ast.Unparen(rs.Results[0]).(*ast.SelectorExpr); ok && se.Sel.Name == "Messages" {
+					if d := uniqueDef(gi, get.Node(), se.X); d != nil {
+						if call, ok := ast.Unparen(d).(*ast.CallExpr); ok {
+							if fn := astx.Callee(gi, call); fn != nil && fname(fn) == "getUnlocked" {
+								whole = true
+							}
+						}
+					}
+				}
+				r.Check(whole, "C08.S9", get.Name(), "a found batch is returned whole", c.P.Pos(rs.Pos()), "<batch from getUnlocked>.Messages, unsliced",
+					"Get does not hand back exactly the messages that were added under the id (a slice, a filtered copy, another batch): its callers index the result by reply number themselves, so replies are skipped or delivered twice")
+			}
+		}
+		if nOK == 0 {
+			r.Break("C08.S9: no 'found' return in OutputStream.Get")
+		}
+	}
 	// ---- GetNext
 	gn := c.MustFunc("outputstream.(*OutputStream).GetNext")
 	if gn == nil || gn.Body() == nil {
